@@ -244,3 +244,56 @@ def noglobal(run, E, rule, reach):
         run.held(rule, 'no __cxa_guard', '', 'no dynamically initialised static reachable; %d mutable globals in the module' % len(mut),
                  True)
     return mut
+
+
+# ------------------------------------------------------------------------------------------------------ LAZYFILL
+# what may be stored into each lazily filled cell, and what the filling function hands back.  A lazy cache is invisible to later
+# calls only if (a) the cell receives nothing but the loader's own result for that key and (b) the caller of the filling call gets
+# the very value a later hit will read -- the cell itself, not a differently converted or substituted value.
+LAZY_CELLS = {
+    'graphite2::GlyphCache::glyph': {
+        'this->_glyphs[': lambda fn, r: r['k'] == 'CXXMemberCallExpr' and (r.get('fq') or '').endswith('Loader::read_glyph'),
+        'this->_boxes[': lambda fn, r: fn.is_null(r) or (fn.strip_all_casts(r)['k'] == 'CallExpr' and (fn.strip_all_casts(r).get('fq') or '').startswith('graphite2::gralloc')),
+    },
+    'graphite2::Face::nameTable': {
+        'this->m_pNames': lambda fn, r: r['k'] == 'CXXNewExpr' and 'NameTable' in (r.get('aty') or r.get('t') or ''),
+    },
+    'graphite2::Font::advance': {
+        'this->m_advances[': lambda fn, r: r['k'] == 'CallExpr' and not r.get('fq') and 'glyph_advance_x' in fn.render(r),
+    },
+}
+
+
+def lazyfill(run, fx, rule):
+    for q, cells in LAZY_CELLS.items():
+        fn = fx.one(q)
+        nst = 0
+        for _, e in fn.elements():
+            if e['k'] in ('BinaryOperator', 'CompoundAssignOperator') and e['op'].endswith('=') and e['op'] not in ('==', '!=', '<=', '>='):
+                lhs = fn.render(fn.deref(e['c'][0]))
+                for prefix, ok in cells.items():
+                    if lhs.startswith(prefix):
+                        nst += 1
+                        r = fn.strip(e['c'][1])
+                        while r['k'] == 'ImplicitCastExpr' and r.get('c'):
+                            r = fn.strip(r['c'][0])
+                        inst = '%s: %s = ..@%s' % (q.split('::')[-1], prefix.rstrip('['), e['ln'])
+                        if e['op'] == '=' and ok(fn, r):
+                            run.held(rule, inst, fn.loc(e), 'filled with the loader result: %s' % fn.render(r)[:80])
+                        else:
+                            run.violated(rule, inst, fn.loc(e), 'the lazily filled cell %s receives `%s`, which is not the result of its loader: a later call reads a value '
+                                         'that depends on what happened before (e.g. a failed or converted first load), so results depend on call history'
+                                         % (prefix.rstrip('['), fn.render(e['c'][1])[:100]))
+        if nst == 0:
+            run.broken(rule, '%s stores' % q.split('::')[-1], 'no store into the lazy cells %s found' % sorted(cells), fn.where())
+        for _, e in fn.elements():
+            if e['k'] == 'ReturnStmt' and e.get('c'):
+                v = fn.deref(e['c'][0])
+                txt = fn.render(v)
+                inst = '%s: return@%s' % (q.split('::')[-1], e['ln'])
+                cellish = any(txt.startswith(pfx) or txt.startswith('*' + pfx.rstrip('[')) for pfx in cells) or fn.is_null(v)
+                if cellish:
+                    run.held(rule, inst, fn.loc(e), 'returns the cell it filled (%s)' % txt[:60], False)
+                else:
+                    run.violated(rule, inst, fn.loc(e), 'the filling call returns `%s` instead of re-reading the cell: the first caller can see a value that differs from '
+                                 'what every later caller reads from the cache (a different conversion, or a substitute), so results depend on call history' % txt[:100])
